@@ -1312,6 +1312,11 @@ impl QueryRouter {
         self.active_role = self.pool_settings.default_role;
     }
 
+    /// Keep the primary for the rest of a batch in which an earlier statement needed it.
+    pub fn pin_primary(&mut self) {
+        self.active_role = Some(Role::Primary);
+    }
+
     /// Get the current desired server role we should be talking to.
     pub fn role(&self) -> Option<Role> {
         self.active_role
